@@ -1124,7 +1124,9 @@ pub fn main() {
                 let delivered: HashMap<i64, usize> = o.out.iter().enumerate().flat_map(|(p, rs)| rs.iter().map(move |r| (r.id, p))).collect();
                 let rrstart: Vec<usize> = (0..c.inputs.len())
                     .map(|i| {
-                        route.iter().filter(|r| r["i"].as_u64() == Some(i as u64 + 1)).find_map(|r| delivered.get(&r["id"].as_i64().unwrap()).map(|p| (p + c.nout - (r["bk"].as_u64().unwrap() as usize % c.nout)) % c.nout)).unwrap_or(0)
+                        route.iter().filter(|r| r["i"].as_u64() == Some(i as u64 + 1)).find_map(|r| delivered.get(&r["id"].as_i64().unwrap()).map(|p| (p + c.nout - (r["bk"].as_u64().unwrap() as usize % c.nout)) % c.nout))
+                            // nothing of this input was observed at an output: the documented start (as the harness oracle assumes)
+                            .unwrap_or(if c.preserve_order && c.inputs.len() > 1 { 0 } else { (i * c.nout) / c.inputs.len() })
                     })
                     .collect();
                 traces.push(json!({"scheme": c.scheme, "n": c.nout, "nin": c.inputs.len(), "rrstart": rrstart, "po": c.preserve_order && c.inputs.len() > 1,
